@@ -125,8 +125,8 @@ def gen(rng, idx, tier):
         features = FEA % (names[0], names[2])
     info = {"unitsPerEm": 1000, "familyName": "T", "styleName": "R"}
     if rng.random() < 0.2:
-        info["postscriptDefaultWidthX"] = 600
-        info["postscriptNominalWidthX"] = rng.choice([500, 600, 0])
+        info["postscriptDefaultWidthX"] = rng.choice([600, 600, 0, -10])
+        info["postscriptNominalWidthX"] = rng.choice([500, 600, 0, -40, -250.5])
     return {"ufo": {"glyphs": glyphs, "info": info, "kerning": kerning, "features": features},
             "lib": rng.choice(["defcon", "ufoLib2"])}
 
